@@ -58,6 +58,7 @@ type OResp struct {
 	Header    http.Header // as sent (incl. hop-by-hop)
 	Body      []byte
 	Is304     bool
+	Bare      bool          // a minimal 304: Date and validators only, no provenance marker
 	TStart    time.Duration // upstream call entered
 	TResp     time.Duration // header handed to the cache
 	Complete  bool          // the wire delivers the whole body (no fault)
@@ -370,6 +371,8 @@ func (r *Run) beginStoreOp(g *kit.Gor, kind, key string, val []byte) *StoreOp {
 		op.Val = append([]byte(nil), val...)
 		op.SIDs = scanSIDs(val)
 		op.IsIndex = looksIndex(key, val)
+	} else if kind == "delete" {
+		op.IsIndex = !strings.Contains(key, "#") // (entry keys are "<uri key>#<variant>")
 	}
 	r.Store = append(r.Store, op)
 	if e := r.exchFor(op.Owner, op.OwnerOp); e != nil {
